@@ -105,6 +105,37 @@ def ifft_arg(k):
     return A.from_nested(hits[k][1]) if k < len(hits) else fresh_array("no_such_transform", 3, "real")
 
 
+WEDGE = "acryo.tilt._single:SingleAxis.create_mask"
+
+
+def wedge_at(model, i, j, k):
+    """value of the model's missing-wedge mask at spectrum bin (i, j, k): 1 for the no-wedge model, the mask the
+    tilt model's create_mask returned on this path otherwise (its geometry is C08's subject)"""
+    if model.attrs["_tilt_model"].cls.name == "NoWedge":
+        return 1
+    for (key, bound, res, loops) in reversed(_CALL_LOG[0]):
+        if key == WEDGE:
+            v = res.at((i, j, k))
+            return V.ite(v, 1, 0) if V.is_sym(v) and v.kind == "bool" else v
+    return V.fresh("no_wedge_call", "real")
+
+
+class _LogView:
+    """the interpreter's log of modular calls on the current path (read when a clause is evaluated)"""
+
+    def __init__(self, interp):
+        self.interp = interp
+
+    def __iter__(self):
+        return iter(self.interp.call_log)
+
+    def __reversed__(self):
+        return reversed(self.interp.call_log)
+
+
+_CALL_LOG = [[]]
+
+
 def cached(model, k):
     return list(model.attrs["_template_mask_cache"].attrs["_dict"].values())[0][k]
 
@@ -141,15 +172,18 @@ print("CONFIRMED" if not ok else "NOT-CONFIRMED"); sys.exit(1 if not ok else 0)
 class model_score:
     """ZNCC (NCC) score = Pearson (uncentred) correlation of the inverse transforms of wedge * lowpass(img * mask) and
     wedge * cached template, the cached template being the model's pre-transformed masked template"""
-    params = dict(self=TSharedModel(kinds=("ZNCCAlignment", "NCCAlignment")), img=_IMG,
+    params = dict(self=T.OneOf(TSharedModel(kinds=("ZNCCAlignment", "NCCAlignment")),
+                               TSharedModel(kinds=("ZNCCAlignment", "NCCAlignment"), wedge="single")), img=_IMG,
                   quaternion=T.Arr(1, "real", shape=(4,)), pos=T.Arr(1, "real", shape=(3,)), backend=T.Const(None))
     requires = ["all(img.shape[a] == self._template.shape[a] for a in range(3))"]
-    helpers = dict(_H, ifft=ifft, ifft_arg=ifft_arg, cached=cached, LP=_LP, kind=lambda o: o.cls.name)
+    helpers = dict(_H, ifft=ifft, ifft_arg=ifft_arg, cached=cached, LP=_LP, kind=lambda o: o.cls.name, wedge=lambda m, i, j, k: wedge_at(m, i, j, k))
     ignore = ["safety.div"]
     replay = staticmethod(_replay_score)
-    setup = staticmethod(lambda interp: interp.call_hooks.__setitem__(
-        "acryo.alignment._base:RotationImplemented._get_template_and_mask_input",
-        _inline("acryo.alignment._base:RotationImplemented._get_template_and_mask_input")))
+    @staticmethod
+    def setup(interp):
+        interp.call_hooks["acryo.alignment._base:RotationImplemented._get_template_and_mask_input"] = \
+            _inline("acryo.alignment._base:RotationImplemented._get_template_and_mask_input")
+        _CALL_LOG[0] = _LogView(interp)
     ensures = {
         "correlation_formula":
             "result == (total(centred(ifft(0)) * centred(ifft(1))) / sqrt(total(centred(ifft(0)) * centred(ifft(0))) * "
@@ -157,8 +191,9 @@ class model_score:
             "result == total(ifft(0) * ifft(1)) / sqrt(total(ifft(0) * ifft(0)) * total(ifft(1) * ifft(1)))",
         "subvolume_is_masked_then_filtered":
             "forall(lambda i, j, k: called_args(LP)['img'][i, j, k] == img[i, j, k] * cached(self, 1)[i, j, k] and "
-            "ifft_arg(0)[i, j, k] == called(LP)[i, j, k], (0, img.shape[0]), (0, img.shape[1]), (0, img.shape[2])) and "
+            "ifft_arg(0)[i, j, k] == called(LP)[i, j, k] * wedge(self, i, j, k), (0, img.shape[0]), (0, img.shape[1]), (0, img.shape[2])) and "
             "called_args(LP)['cutoff'] == self._cutoff",
         "template_is_the_cached_one":
-            "forall(lambda i, j, k: ifft_arg(1)[i, j, k] == cached(self, 0)[i, j, k], (0, img.shape[0]), (0, img.shape[1]), (0, img.shape[2]))",
+            "forall(lambda i, j, k: ifft_arg(1)[i, j, k] == cached(self, 0)[i, j, k] * wedge(self, i, j, k), "
+            "(0, img.shape[0]), (0, img.shape[1]), (0, img.shape[2]))",
     }
